@@ -187,12 +187,77 @@ def main(argv=None):
     seed = int(os.environ.get('VERIF_SEED', '0') or 0)
     t0 = time.time()
     try:
-        rc = run(pid, a.tier, seed, a, t0)
+        rc = do_replay(pid, a.replay, a) if a.replay else run(pid, a.tier, seed, a, t0)
     except Exception:
         traceback.print_exc()
         print('CHECKER-ERROR property=%s (crash)' % pid)
         rc = 3
     return rc
+
+
+def do_replay(pid, path, a):
+    """./check <Cxx> --replay <file>: show what the replay file recorded (obligation, solver verdict and model, the input found on
+    the real code) and decide the SAME obligation again on the tree as it is now: exit 1 when it still fails, 0 when it is discharged"""
+    doc = json.load(open(path))
+    print('replay of %s' % path)
+    print('  obligation : %s' % doc.get('obligation'))
+    print('  function   : %s   (stream model %s)' % (doc.get('function'), doc.get('stream_model')))
+    print('  recorded   : verdict=%s solver=%s' % (doc.get('verdict'), doc.get('solver')))
+    nat = doc.get('native')
+    if isinstance(nat, dict):
+        print('  input on the real code: %s' % (nat.get('input'),))
+        print('  observed   : %s   [%s]' % (nat.get('observed'), nat.get('source')))
+    elif nat:
+        print('  native     : %s' % (nat,))
+    if doc.get('mismatches'):
+        for m in doc['mismatches'][:10]:
+            print('  mismatch   : %s' % (str(m)[:300],))
+    if doc.get('query'):
+        r = solve.solve_many([('q', doc['query'], None)], timeout=30, tier='quick')['q']
+        print('  recorded query re-run: %s (%s)   [sat = the obligation is refuted for the tree the file was written from]' % (r.verdict, r.solver))
+    src = Source()
+    load_contracts(src)
+    ob = doc.get('obligation') or ''
+    if ob.startswith('table/') or ob.startswith('contract of '):
+        from props import PROPS
+        ex = PROPS[pid].get('extra')
+        out = ex(src, 'quick', 0) if ex else {}
+        bad = [v for v in out.get('violations', []) if ob.split('/', 1)[-1][:40].replace(' ', '-') in v.replace(' ', '-')]
+        print('  on the current tree: %s' % ('table still has mismatches' if bad else 'table has no mismatch'))
+        return 1 if bad else 0
+    q = doc.get('function')
+    c = contract.REGISTRY.get(q)
+    if (doc.get('stream_model') or '').endswith('generic'):
+        c = contract.GENERIC.get(q, c)
+    if c is None or c.setup is None or not src.has(q):
+        print('  on the current tree: function %s is not under contract / no longer exists' % q)
+        return 2
+    make = driver.make_models_factory(src, ConstructInterface)
+    want = stable_key(ob)
+    status = None
+    for model in c.stream_models:
+        for v in c.variants:
+            vr = c.verify(src, make, model, v)
+            if vr.out_of_reach:
+                continue
+            mname = model if v is None else '%s,%s' % (model, v)
+            jobs = {}
+            for i, o in enumerate(vr.obligations):
+                name = driver.ObligationResult(o, q, mname + (',generic' if c.generic else '')).name
+                if stable_key(name) == want and not (o.goal.op == 'bool' and o.goal.args[0] is True):
+                    jobs[i] = (i, prelude.build_query(o.hyps, o.goal), prelude.build_query(o.hyps, o.goal, opaque=True))
+            if jobs:
+                res = solve.solve_many(list(jobs.values()), timeout=30, tier='quick')
+                vs = sorted({res[i].verdict for i in jobs})
+                status = vs if status is None else sorted(set(status) | set(vs))
+    if status is None:
+        print('  on the current tree: the obligation is not generated (trivially true, or the function changed shape)')
+        return 0
+    print('  on the current tree: %s' % ('discharged' if status == ['unsat'] else 'NOT discharged %s' % status))
+    if status != ['unsat']:
+        print('VIOLATION property=%s replay=%s obligation=%s' % (pid, path, ob))
+        return 1
+    return 0
 
 
 def run(pid, tier, seed, a, t0):
